@@ -144,11 +144,11 @@ func vParseLJH3(path string) (*vLJH3File, error) {
 }
 
 type vOFFRecord struct {
-	nsamp, npre    int32
-	frame          int64
-	timestamp      int64
+	nsamp, npre            int32
+	frame                  int64
+	timestamp              int64
 	ptMean, ptDelta, resid float32
-	coefs          []float32
+	coefs                  []float32
 }
 
 type vOFFFile struct {
